@@ -61,15 +61,26 @@ ShareNothing(ivw, ivr, e) ==
 Step(ivw, ivr) ==
   LET e == M!RwStep(Mc, r, ivw, ivr) IN
     /\ r' = e.r /\ d' = d
-    /\ W!CStep(Cw, ivw, e.ow)
-    /\ R!CStep(Cr, ivr, e.or)
+    \* a direction with k = 0 stays idle (no offers, nothing owed): its monitor keeps its initial state
+    /\ IF Cw.k = 0 THEN UNCHANGED wvars ELSE W!CStep(Cw, ivw, e.ow)
+    /\ IF Cr.k = 0 THEN UNCHANGED rvars ELSE R!CStep(Cr, ivr, e.or)
     /\ okx' = IF MC[d].chkx = 1 THEN ShareNothing(ivw, ivr, e) ELSE TRUE
     /\ ph' = IF e.r = r /\ wvars' = wvars /\ rvars' = rvars THEN 1 - ph ELSE 0
 
-Next == \E ivw \in W!Inputs(Cw) : \E ivr \in R!Inputs(Cr) : Step(ivw, ivr)
-Spec == Init /\ [][Next]_vars /\ WF_vars(Next)
+(* MC[d].actw / actr: masters that issue requests in the write / read        *)
+(* direction (the others stay silent there): a sub-environment, chosen per   *)
+(* configuration to keep the product of the two directions affordable        *)
+InW == { iv \in W!Inputs(Cw) : \A i \in 1..Mc.n : MC[d].actw[i] = 0 => (W!MAv(iv, i) = 0 /\ W!MWv(iv, i) = 0) }
+InR == { iv \in R!Inputs(Cr) : \A i \in 1..Mc.n : MC[d].actr[i] = 0 => (R!MAv(iv, i) = 0 /\ R!MWv(iv, i) = 0) }
+Next == LET a == InW  b == InR IN \E ivw \in a : \E ivr \in b : Step(ivw, ivr)
+(* Fairness: time does not stop.  Next is enabled in every state (the        *)
+(* environment always has a move) and every Next step changes vars (ph), so  *)
+(* WF_vars(Next) is []<><<TRUE>>_vars; written this way TLC compares the two *)
+(* states of a transition instead of searching, for every transition, the    *)
+(* input pair that produces it (which squares the cost of a state).          *)
+Spec == Init /\ [][Next]_vars /\ []<><<TRUE>>_vars
 Alias == [d |-> d, r |-> r, w_obs |-> w_obs, r_obs |-> r_obs, w_aq |-> w_aq, r_aq |-> r_aq, w_qa |-> w_qa, r_qa |-> r_qa,
-          iv |-> LET p == CHOOSE p \in W!Inputs(Cw) \X R!Inputs(Cr) : Step(p[1], p[2]) IN p[1] \o p[2]]
+          iv |-> LET p == CHOOSE p \in InW \X InR : Step(p[1], p[2]) IN p[1] \o p[2]]
 
 ---------------------------------------------------------------------------
 (* the clauses of the L1 contract, for both directions *)
@@ -95,6 +106,9 @@ Arb == Mc.n > 1 /\ Mc.kind \in {"arbiter", "shared", "crossbar"}
 ServedW == (<>[](w_obs.fair)) => \A i \in 1..MAXN : []<>(Arb \/ w_obs.prog[i])
 ServedR == (<>[](r_obs.fair)) => \A i \in 1..MAXN : []<>(Arb \/ r_obs.prog[i])
 Served == ServedW /\ ServedR
+\* Served without the exemption of arbitrated configurations: violated on the model exactly as on the code (the
+\* starvation finding); used by hand to see that the liveness check of this module bites
+ServedEvenIfArbitrated == (<>[](w_obs.fair)) => \A i \in 1..MAXN : []<>(w_obs.prog[i])
 GapsW == \A i \in 1..MAXN : ((<>[](w_obs.fair)) /\ (\A j \in (1..MAXN) \ {i} : []<>(w_obs.idle[j]))) => []<>(w_obs.prog[i])
 GapsR == \A i \in 1..MAXN : ((<>[](r_obs.fair)) /\ (\A j \in (1..MAXN) \ {i} : []<>(r_obs.idle[j]))) => []<>(r_obs.prog[i])
 ServedIfGaps == GapsW /\ GapsR
